@@ -21,6 +21,7 @@ struct Cursor {
     iscan_context* ctx{nullptr};
     std::string storage;
     std::vector<std::pair<node_version64*, node_version64_body>> cbs;
+    bool done{false};
 };
 static std::map<std::string, Cursor> g_cursors;
 
@@ -73,9 +74,26 @@ int main(int argc, char** argv) {
     vh::ledger().enabled = true;
     std::string line;
     long base_n = 0, base_bytes = 0;
-    while (std::getline(std::cin, line)) {
+    std::vector<std::string> pending; // macro expansions, consumed before stdin
+    for (;;) {
+        if (!pending.empty()) {
+            line = pending.back();
+            pending.pop_back();
+        } else if (!std::getline(std::cin, line)) {
+            break;
+        }
         auto w = split(line);
         if (w.empty() || w[0][0] == '#') continue;
+        if (w[0] == "idrain" && w.size() == 3) {
+            // call inext until it stops answering OK, at most n times (never after OK_SCAN_END)
+            auto it = g_cursors.find(w[1]);
+            std::size_t n = std::strtoull(w[2].c_str(), nullptr, 10);
+            if (it != g_cursors.end() && it->second.ctx != nullptr && !it->second.done && n > 0) {
+                pending.push_back("idrain " + w[1] + " " + std::to_string(n - 1));
+                pending.push_back("inext " + w[1]);
+            }
+            continue;
+        }
         std::cout << "> " << line << "\n";
         const std::string& op = w[0];
         std::ostringstream r;
@@ -223,10 +241,11 @@ int main(int argc, char** argv) {
                 rc = iscan_open(n, lk, ep(w[4]), rk, ep(w[6]), w[7] == "1", w[8] == "1", c->ctx, out, cb);
             } else {
                 auto it = g_cursors.find(w[1]);
-                if (it == g_cursors.end() || it->second.ctx == nullptr) { std::cout << "< no-cursor\n"; continue; }
+                if (it == g_cursors.end() || it->second.ctx == nullptr || it->second.done) { std::cout << "< no-cursor\n"; continue; }
                 c = &it->second;
                 rc = iscan_next(c->ctx, out, cb);
             }
+            c->done = rc != status::OK;
             r << st(rc);
             if (rc == status::OK) {
                 std::string fk = c->ctx->full_key();
@@ -251,6 +270,14 @@ int main(int argc, char** argv) {
             else { r << st(iscan_close(it->second.ctx)); g_cursors.erase(it); }
         } else if (op == "mem" && w.size() == 2) {
             std::string n; vh::unhex(w[1], n);
+            {
+                // the dump the model recomputes mem_usage from
+                vh::Walker wd;
+                walk_storage(n, wd);
+                std::cout << "D " << hex(n) << " " << wd.lines.size() << "\n";
+                for (auto& l : wd.lines) std::cout << l << "\n";
+                for (auto& e : wd.errors) std::cout << "WALKERR " << e << "\n";
+            }
             auto ms = mem_usage(n);
             r << ms.size();
             for (auto& [cnt, used, res] : ms) r << " " << cnt << "," << used << "," << res;
